@@ -684,7 +684,7 @@ func completeOverride(ed *editor) bool {
 	case "\n", "\r":
 		if 0 <= ed.completer.index {
 			word := completerWords[ed.completer.lo+ed.completer.index]
-			added := []rune(word)[len(ed.completer.target):]
+			added := []rune(word)[len([]rune(ed.completer.target)):]
 			if ed.pos == len(ed.lines[ed.line]) {
 				ed.lines[ed.line] = append(ed.lines[ed.line], added...)
 				ed.pos += len(added)
@@ -714,7 +714,7 @@ func completeOverride(ed *editor) bool {
 
 func expandWord(word string, wa []string, lo, hi int) (added []rune) {
 	w0 := []rune(wa[lo])
-	for i := len(word); i < len(w0); i++ {
+	for i := len([]rune(word)); i < len(w0); i++ {
 		r := w0[i]
 		for j := lo + 1; j <= hi; j++ {
 			w := []rune(wa[j])
